@@ -147,6 +147,8 @@ impl<K: Send, V: Send + Sync, H> CacheShared<K, V, H> {
     match loader {
       Loader::Sync(sync_loader) => {
         thread::spawn(move || {
+          #[cfg(excsn_fibre_verif)]
+          let _verif_adopted = fibre::verif::adopt();
           let (value, cost) = sync_loader(key.clone());
           let new_cache_entry = Arc::new(CacheEntry::new(
             value,
